@@ -567,4 +567,23 @@ PROPS = {
     "C09": _run_prop("C09", [{"kind": "run", "name": "twin", "profile": "twin", "count": {"quick": 160, "thorough": 2000}, "salt": 9, "second_process": True}],
                      ["C09's theorem is the determinacy of the model; purity of the real RNG / hasher is a fact about rand, rustc-hash and the source text (SourceFacts lints)"],
                      ["each schedule is run three times in one process (same actions; same completion order with different spacing) and once more in a second process; logs compared (judge_twin / byte-wise)"]),
+    "C15": {
+        "propfile": "theories/Properties/C15.v",
+        "coq_targets": ["theories/Properties/C15.vo"],
+        "checkers": ["RunCheck", "OpsCheck", "SpecCheck", "GuessCheck", "CliCheck"],
+        "streams": [{"kind": "run", "name": "stop", "profile": "stop", "count": {"quick": 160, "thorough": 3000}, "salt": 15},
+                    {"kind": "ops", "name": "mixed", "profile": "mixed", "count": {"quick": 240, "thorough": 6000}, "salt": 151},
+                    {"kind": "spec", "name": "mixed", "profile": "mixed", "count": {"quick": 320, "thorough": 8000}, "salt": 152},
+                    {"kind": "guess", "name": "mixed", "profile": "mixed", "count": {"quick": 320, "thorough": 8000}, "salt": 153},
+                    {"kind": "cli", "name": "verbose", "profile": "verbose", "count": {"quick": 32, "thorough": 300}, "salt": 154}],
+        "assumptions": [
+            "partial: 'never hangs' is proved as progress of the controller model (stop_drains, guarded abort branch) under the property's assumption that every evaluation ends; that the runtime delivers completions is not provable here",
+            "objective values within +-2^997 (contains +-1e300); sample sizes below 2^26",
+        ],
+        "tested_not_proved": [
+            "no panic / no hang of the real code on every stream (run: watchdog on every poll; ops/spec/guess: catch_unwind; cli: exit code 101 / 'panicked' / 60 s limit)",
+            "verbose on/off gives the same exit code and stdout (cli stream, sequential runs)",
+            "division of the finite sum by the sample size is not covered by mean_sum_finite",
+        ],
+    },
 }
